@@ -176,7 +176,21 @@ fn run_and_probe(term: &mut Term, cmd: &str, replies: &[String]) -> String {
 
 fn check_run(t: &mut Tape, ctx: &Ctx) -> Outcome {
     let g = gen_prog(t);
-    let texts = g.prog.texts();
+    let mut texts = g.prog.texts();
+    // how the final run is started: 0 = RUN [n] on both sides; 1 = CLEAR:GOTO n after the prefix
+    // versus RUN n in the fresh interpreter (RUN behaves as CLEAR followed by GOTO); 2 = the
+    // program opens with a CLEAR line and is entered by GOTO <that line> versus a fresh RUN
+    let mut mode = *t.pick(&[0usize, 0, 1, 2]);
+    let first = g.prog.lines.first().map(|l| l.num).unwrap_or(0);
+    let mut clear_line = 0u16;
+    if mode == 2 {
+        if first >= 1 {
+            clear_line = first - 1;
+            texts.insert(0, format!("{} CLEAR", clear_line));
+        } else {
+            mode = 0;
+        }
+    }
     let subs = sub_lines(&g);
     let mut h = Term::new();
     // second family: the interpreter first held another program
@@ -207,8 +221,15 @@ fn check_run(t: &mut Tape, ctx: &Ctx) -> Outcome {
     let pre = play_prefix(t, &mut h, &g, &subs);
     script.push_str(&pre.script);
     let nums = g.prog.line_numbers();
-    let cmd = if !nums.is_empty() && t.chance(1, 4) { format!("RUN {}", t.pick(&nums)) } else { "RUN".to_string() };
-    let case = format!("{}\n--- session prefix:\n{}--- then: {}\nreplies {:?}", texts.join("\n"), script, cmd, g.replies);
+    let target = if !nums.is_empty() && t.chance(1, 4) { Some(*t.pick(&nums)) } else { None };
+    let (cmd, cmd_fresh) = match (mode, target) {
+        (1, Some(n)) => (format!("CLEAR:GOTO {}", n), format!("RUN {}", n)),
+        (1, None) if !nums.is_empty() => (format!("CLEAR:GOTO {}", nums[0]), "RUN".to_string()),
+        (2, _) => (format!("GOTO {}", clear_line), "RUN".to_string()),
+        (_, Some(n)) => (format!("RUN {}", n), format!("RUN {}", n)),
+        _ => ("RUN".to_string(), "RUN".to_string()),
+    };
+    let case = format!("{}\n--- session prefix:\n{}--- then: {}   (fresh interpreter: {})\nreplies {:?}", texts.join("\n"), script, cmd, cmd_fresh, g.replies);
     crate::runner::note_case(&case);
     if let Some(m) = has_panic(&h.log) {
         return Outcome::fail("panic", m, case);
@@ -216,7 +237,7 @@ fn check_run(t: &mut Tape, ctx: &Ctx) -> Outcome {
     let got = run_and_probe(&mut h, &cmd, &g.replies);
     let mut f = Term::new();
     type_in(&mut f, &texts);
-    let want = run_and_probe(&mut f, &cmd, &g.replies);
+    let want = run_and_probe(&mut f, &cmd_fresh, &g.replies);
     if got != want {
         return Outcome::fail("run-after-prefix-differs-from-fresh", format!("after the prefix:\n{}\n--- fresh interpreter:\n{}", got, want), case);
     }
@@ -225,6 +246,11 @@ fn check_run(t: &mut Tape, ctx: &Ctx) -> Outcome {
     if switched {
         labels.push("switched from another program");
     }
+    labels.push(match mode {
+        1 => "final run started by CLEAR:GOTO n (fresh side: RUN n)",
+        2 => "program opens with a CLEAR line, entered by GOTO (fresh side: RUN)",
+        _ => "final run started by RUN [n]",
+    });
     let o2 = Outcome::pass(nt, hash_str(&case)).with_labels(labels);
     if ctx.render {
         o2.with_case(case)
@@ -283,9 +309,20 @@ fn check_clear_new(t: &mut Tape, ctx: &Ctx) -> Outcome {
     } else {
         "CLEAR"
     };
+    // CLEAR and NEW work whatever state the stored program is in: a quarter of the cases make it
+    // a program that does not compile first (both here and in the fresh interpreter)
+    let mut texts = texts;
+    let mut faulty = false;
+    let mut o = Opts::default();
+    if t.chance(1, 4) {
+        let bad = t.pick(&["65000 GOTO 64999", "65000 PRINT )", "65000 WHILE 1"]).to_string();
+        h.line(&bad, &mut o);
+        h.take();
+        texts.push(bad);
+        faulty = true;
+    }
     let case = format!("{}\n--- session prefix:\n{}--- then: {} and the probe battery", texts.join("\n"), pre.script, cmd);
     crate::runner::note_case(&case);
-    let mut o = Opts::default();
     h.line(cmd, &mut o);
     let out = flat(&h.take());
     if !out.is_empty() {
@@ -328,6 +365,9 @@ fn check_clear_new(t: &mut Tape, ctx: &Ctx) -> Outcome {
     }
     let mut labels = pre.dirty.clone();
     labels.push(if use_new { "NEW" } else { "CLEAR" });
+    if faulty {
+        labels.push("the stored program does not compile");
+    }
     let o2 = Outcome::pass(!pre.dirty.is_empty(), hash_str(&case)).with_labels(labels);
     if ctx.render {
         o2.with_case(case)
